@@ -127,7 +127,7 @@ func ruleTxCommitGuard(c *Ctx) {
 			if id, ok := kv.Key.(*ast.Ident); ok && id.Name == "DAO" {
 				found = true
 				m := nf.Mentions(kv.Value, nil)
-				if m[symGetPrivate] && m["param:d"] {
+				if m[symGetPrivate] && m["param#2"] {
 					c.OK("NewContext.private-layer", c.P.Pos(kv.Pos()), "Context.DAO is a fresh private layer over the DAO passed in (d.GetPrivate())")
 				} else {
 					c.Fail("NewContext.private-layer", c.P.Pos(kv.Pos()), "interop.NewContext no longer wraps the DAO it is given into a private layer: a faulting execution would write through")
@@ -615,37 +615,45 @@ func ruleUnloadRollback(c *Ctx) {
 		c.Lost("anchor", "callExFromNative not found")
 		return
 	}
-	info := fd.Pkg.TypesInfo
+	_ = fd.Pkg.TypesInfo
 	// the unload callback: the function literal with a `commit bool` parameter
 	var lit *ast.FuncLit
 	ast.Inspect(fd.Decl.Body, func(n ast.Node) bool {
 		if l, ok := n.(*ast.FuncLit); ok && lit == nil {
+			// signature func(*vm.VM, *vm.Context, bool) error: the bool says whether the context unloads normally
+			np := 0
+			lastBool := false
 			for _, fl := range l.Type.Params.List {
-				for _, nm := range fl.Names {
-					if nm.Name == "commit" {
-						lit = l
-					}
+				k := len(fl.Names)
+				if k == 0 {
+					k = 1
 				}
+				np += k
+				lastBool = isBoolType(fd.Pkg.TypesInfo.TypeOf(fl.Type))
+			}
+			if np == 3 && lastBool {
+				lit = l
 			}
 		}
 		return true
 	})
 	if lit == nil {
-		c.Lost("unload-callback", "no unload callback (func literal with a commit parameter) in callExFromNative")
+		c.Lost("unload-callback", "no unload callback (func literal of type func(*VM, *Context, bool) error) in callExFromNative")
 		return
 	}
-	f := c.P.NewLitCFG(info, "pkg/core/interop/contract.callExFromNative$onUnload", lit)
+	ofOuter := c.P.NewFuncCFG(fd)
+	f := c.P.NewLitCFGIn(ofOuter, "pkg/core/interop/contract.callExFromNative$onUnload", lit)
 	pos := c.P.Pos(lit.Pos())
 	ruleWrapMask(c, fd)
-	wrappedT := symAssume("local:wrapped", true)
+	wrappedT := symAssume("local<-pkg/vm.(*VM).ContractHasTryBlock", true)
 	// (a) persist only on commit
 	persist := f.CallSites(symDAOPersist)
 	if len(persist) == 0 {
 		c.Lost("unload.persist", "unload callback does not persist the wrapped layer")
 	} else {
 		for _, g := range []Guard{
-			{ID: "commit", Doc: "the callee's layer is persisted only when the context unloads without an uncaught exception", Alts: [][]string{{"param:commit"}}},
-			{ID: "wrapped", Doc: "a layer is persisted only if this call created one", Alts: [][]string{{"local:wrapped"}}},
+			{ID: "commit", Doc: "the callee's layer is persisted only when the context unloads without an uncaught exception", Alts: [][]string{{"param#2"}}},
+			{ID: "wrapped", Doc: "a layer is persisted only if this call created one", Alts: [][]string{{"local<-pkg/vm.(*VM).ContractHasTryBlock"}}},
 		} {
 			res := f.CheckGate(f.Entry(), blocksOf(persist), g, nil)
 			if res.OK {
@@ -657,8 +665,8 @@ func ruleUnloadRollback(c *Ctx) {
 	}
 	// (b) on the failing branch notifications are cut back, and nothing is persisted
 	exits := blocksOf(f.Returns())
-	failA := &Assume{Sym: map[string]bool{"local:wrapped": true, "param:commit": false}}
-	if ok, path, n := f.CheckMustNode(f.Entry(), exits, failA, "pkg/core/interop#Notifications", "local:baseNtfCount"); ok && n > 0 {
+	failA := &Assume{Sym: map[string]bool{"local<-pkg/vm.(*VM).ContractHasTryBlock": true, "param#2": false}}
+	if ok, path, n := f.CheckMustNode(f.Entry(), exits, failA, "pkg/core/interop#Notifications", "local<-pkg/core/interop#Notifications"); ok && n > 0 {
 		c.OK("unload.rollback.notifications", pos, "on an uncaught exception every path cuts ic.Notifications back to the length recorded before the call")
 	} else {
 		c.Fail("unload.rollback.notifications", pos, "an exit of the unload callback on the exception branch keeps the callee's notifications (no truncation to baseNtfCount)", path...)
@@ -677,20 +685,20 @@ func ruleUnloadRollback(c *Ctx) {
 	}
 	// (c) the base layer is restored on both branches
 	okExits := blocksOf(f.OKReturns()) // an error from the callback faults the whole execution: nothing continues on that layer
-	if ok, path, n := f.CheckMustNode(f.Entry(), okExits, wrappedT, "pkg/core/interop#DAO", "local:baseDAO"); ok && n > 0 {
+	if ok, path, n := f.CheckMustNode(f.Entry(), okExits, wrappedT, "pkg/core/interop#DAO", "local<-pkg/core/interop#DAO"); ok && n > 0 {
 		c.OK("unload.restore-dao", pos, "every non-failing exit of a wrapped call's unload restores ic.DAO to the base layer")
 	} else {
 		c.Fail("unload.restore-dao", pos, "an exit of the unload callback leaves ic.DAO pointing at the callee's private layer", path...)
 	}
 	// (d) in the enclosing function: baseline values are captured before the layer is replaced and the callee loaded
-	of := c.P.NewFuncCFG(fd)
+	of := ofOuter
 	load := of.CallSites("pkg/vm.(*VM).LoadNEFMethod")
 	if len(load) == 0 {
 		c.Lost("call.load", "no LoadNEFMethod in callExFromNative")
 	} else {
-		for _, mn := range [][]string{{"local:baseNtfCount", "pkg/core/interop#Notifications", "builtin.len"}, {"local:baseDAO", "pkg/core/interop#DAO"}} {
+		for _, mn := range [][]string{{"local<-pkg/core/interop#Notifications", "pkg/core/interop#Notifications", "builtin.len"}, {"local<-pkg/core/interop#DAO", "pkg/core/interop#DAO"}} {
 			ok, path, n := of.CheckMustNode(of.Entry(), blocksOf(load), nil, mn...)
-			key := "call.baseline." + strings.TrimPrefix(mn[0], "local:")
+			key := "call.baseline." + shortSym(mn[1])
 			if ok && n > 0 {
 				c.OK(key, c.P.Pos(fd.Decl.Pos()), mn[0]+" is captured before the callee is loaded")
 			} else {
@@ -698,7 +706,7 @@ func ruleUnloadRollback(c *Ctx) {
 			}
 		}
 		// a private layer is created iff the unload callback will handle it
-		res := of.CheckGate(of.Entry(), blocksOf(of.NodeSites("pkg/core/interop#DAO", symGetPrivate)), Guard{ID: "wrapped", Doc: "the private layer is created under the same flag the unload callback tests", Alts: [][]string{{"local:wrapped"}}}, nil)
+		res := of.CheckGate(of.Entry(), blocksOf(of.NodeSites("pkg/core/interop#DAO", symGetPrivate)), Guard{ID: "wrapped", Doc: "the private layer is created under the same flag the unload callback tests", Alts: [][]string{{"local<-pkg/vm.(*VM).ContractHasTryBlock"}}}, nil)
 		if res.OK {
 			c.OK("call.layer-iff-wrapped", c.P.Pos(fd.Decl.Pos()), res.Msg)
 		} else {
@@ -851,8 +859,18 @@ func ruleWrapMask(c *Ctx, fd *FuncDecl) {
 		if !ok || len(as.Lhs) != 1 || len(as.Rhs) != 1 {
 			return true
 		}
-		if id, ok := as.Lhs[0].(*ast.Ident); ok && id.Name == "wrapped" && def == nil {
-			def = as.Rhs[0]
+		if _, ok := as.Lhs[0].(*ast.Ident); ok && def == nil && isBoolType(info.TypeOf(as.Rhs[0])) {
+			// the decision: the boolean that asks whether the caller has a try block
+			mentionsTry := false
+			ast.Inspect(as.Rhs[0], func(m ast.Node) bool {
+				if se, ok := m.(*ast.SelectorExpr); ok && se.Sel.Name == "ContractHasTryBlock" {
+					mentionsTry = true
+				}
+				return true
+			})
+			if mentionsTry {
+				def = as.Rhs[0]
+			}
 		}
 		return true
 	})
